@@ -18,7 +18,7 @@ pub fn step(ctx: &Ctx, w: &World, ev: &mut Ev) {
     let changed: Vec<String> = names.iter().filter(|n| ctx.pre.bal(n) != ctx.post.bal(n)).map(|n| n.to_string()).collect();
     let sender = w.resolve(&ctx.step.actor);
     // the fee pool the engine is configured with at the time of the transaction (the owner may re-point it)
-    let cur_fp = ctx.pre.eng.as_ref().map(|e| e.fee_pool.clone()).unwrap_or_else(|| w.addrs.fee_pool.clone());
+    let cur_fp = ctx.model.fee_pool_ref.clone().unwrap_or_else(|| w.addrs.fee_pool.clone());
     let role_of = |a: &str| -> String {
         if a == sender {
             "sender".into()
